@@ -7,7 +7,7 @@
    documented in-place operations, whose inputs are chosen so that they must change);
    det and conc must be 1; no library call of the case may have panicked (a call that
    panics has compared nothing).
-   The comparator sees only FLAGS computed by the harness.  Routine ids 40..43 are the
+   The comparator sees only FLAGS computed by the harness.  Routine ids 40..44 are the
    harness's CANARIES (harness/c20canary.go): deliberately impure / history-dependent /
    schedule-dependent functions defined in the harness that go through the same pipeline;
    for them the comparator demands that they ARE flagged ([canary_expect]), so a harness that
@@ -35,13 +35,14 @@ Fixpoint list_bool_eqb (a b : list bool) : bool :=
   | _, _ => false
   end.
 
-(* what the harness must report for its own canaries: the exact modification flags, and det / conc
-   where the canary fixes them (None: not constrained) *)
-Definition canary_expect (rid : Z) : option (list bool * option bool * option bool) :=
-  if (rid =? 40)%Z then Some ([true; true; false], Some true, Some true)   (* sorts arg 0, writes the spare capacity of arg 1, reads arg 2 *)
-  else if (rid =? 41)%Z then Some ([false], Some false, None)              (* call counter / cache keyed by address / process history *)
-  else if (rid =? 42)%Z then Some ([false], Some true, Some false)         (* result depends on another call being in flight *)
-  else if (rid =? 43)%Z then Some ([false], Some true, Some true)          (* data race on a harness global: judged by the -race twin *)
+(* what the harness must report for its own canaries: the exact modification flags, det / conc
+   where the canary fixes them (None: not constrained) and the exact number of panics *)
+Definition canary_expect (rid : Z) : option (list bool * option bool * option bool * Z) :=
+  if (rid =? 40)%Z then Some ([true; true; false], Some true, Some true, 0%Z)   (* sorts arg 0, writes the spare capacity of arg 1, reads arg 2 *)
+  else if (rid =? 41)%Z then Some ([false], Some false, None, 0%Z)              (* call counter / cache keyed by address / process history *)
+  else if (rid =? 42)%Z then Some ([false], Some true, Some false, 0%Z)         (* result depends on another call being in flight *)
+  else if (rid =? 43)%Z then Some ([false], Some true, Some true, 0%Z)          (* data race on a harness global: judged by the -race twin *)
+  else if (rid =? 44)%Z then Some ([false], Some true, Some true, 1%Z)          (* always panics: the panic must be counted *)
   else None.
 
 Definition opt_ok (e : option bool) (b : bool) : bool := match e with None => true | Some x => Bool.eqb x b end.
@@ -58,8 +59,8 @@ Definition check_C20 (line : list Z) : list Z :=
   | None => verdict V_MALFORMED 0 (-1) []
   | Some ((rid, mut, det, conc, pan, idx), _) =>
       match canary_expect rid with
-      | Some (em, ed, ec) =>
-          if list_bool_eqb mut em && opt_ok ed det && opt_ok ec conc && (pan =? 0)%Z
+      | Some (em, ed, ec, ep) =>
+          if list_bool_eqb mut em && opt_ok ed det && opt_ok ec conc && (pan =? ep)%Z
           then verdict V_OK 8 (-1) [idx] else verdict V_MISMATCH 8 6 [idx; rid]
       | None =>
       match find_routine rid with
